@@ -5,7 +5,7 @@ E[s][h][t] = minimum total length of a walk with EXACTLY h edges from s to t (ex
 from which dist[s][t] = min_h E[s][h][t].  Every clause of the property is evaluated on the
 implementation's output; the extracted Coq models (Model/Distance.v) are run on the same inputs.
 """
-import itertools, math
+import itertools, math, contextlib
 from fractions import Fraction as F
 import numpy as np
 from common import *
@@ -38,7 +38,12 @@ RULE = ('binary and length matrices, directed and undirected, n=1..8: exhaustive
         '(omitted), eccentricity / radius / diameter judged; breadth() called directly (distance and branch outputs); n in {12,20,40} (thorough: 6 sizes) for '
         'distance_wei / distance_wei_floyd / efficiency_* with the numpy exact-h oracle only; the five distance routines on int64/int8/uint8/bool copies of small '
         '0/1 digraphs; one dense digraph of 166-176 nodes with unreachable pairs (thorough: also n=260 p=.15, n=200 p=.5) for reachdist / distance_bin judged '
-        'by BFS. non-trivial = at least one finite off-diagonal distance; distinct by hash of (kind, matrix)')
+        'by BFS. STRESS FAMILIES (oracle only, BFS over adjacency lists; numeric range of the walk counts): dense block + long tail - K_k (k = 6..20) with a chain of '
+        '31..80 nodes hanging off one node, one-way or both ways, optionally a second component, labels permuted, n = 52..101, (k-1)^chain > 3.4e38 (beyond binary32) - '
+        'through distance_bin, distance_wei (D and hop counts), distance_wei_floyd (SPL and hops), breadthdist, reachdist, efficiency_bin, efficiency_wei, charpath: two instances per '
+        'quick run, ten in the thorough tier = the escalated pass on a changed tree (run FIRST there); K50 + chain of 183 + 2-node component (thorough: also K64 + one-way chain of 185), '
+        '(k-1)^chain > 1.8e308 (beyond binary64), through distance_bin / efficiency_bin / reachdist on the arrays as built (open findings *[walk-count-overflow]). '
+        'non-trivial = at least one finite off-diagonal distance; distinct by hash of (kind, matrix)')
 ASSUMES = ['the theorems are over exact rationals: on lengths that are NOT exact in binary64 (1/3, k*ln 2) rounding can separate exactly tied alternatives — one known finding (edge-count-tie) lives exactly there',
            'lengths are small integers or dyadic rationals, so every sum/comparison the model treats as exact is exact in binary64; '
            'results of 1/x and -log x are compared with relative tolerance 1e-9',
@@ -46,7 +51,10 @@ ASSUMES = ['the theorems are over exact rationals: on lengths that are NOT exact
            'weights strictly positive; log transform on weights in (0,1]',
            'charpath: entries nan, +inf or finite (no -inf, no -0.0); n >= 1 (the masked maximum of the eccentricity raises on a 0x0 matrix); the eccentricity of a row '
            'with nothing selected (isolated node with include_infinite=False) is the fill value 1e20 of numpy.ma and is not judged',
-           'reachdist: only ensure_binary=True is modelled; walk counts are exact integers in the model, clipped to 0/1 each round as the code does since repo commit 2cf9619']
+           'reachdist: only ensure_binary=True is modelled; walk counts are exact integers in the model, clipped to 0/1 each round as the code does since repo commit 2cf9619',
+           'distance_bin / efficiency_bin: walk counts are exact integers in the model and binary64 in the code - they agree while (largest eigenvalue)^(diameter) < 1.8e308; beyond that '
+           'the code returns finite distances for unreachable pairs (OPEN findings distance_bin[walk-count-overflow]:min-length, efficiency_bin[walk-count-overflow]:mean-inverse; '
+           'proposed_fixes/distance_bin_overflow.diff, efficiency_bin_overflow.diff clip the power to its support as reachdist does)']
 TRUSTED = ['-log is an abstract function (Section variable) in the theorems; in the extracted run its values are supplied by the harness as a table of the floats NumPy computed']
 
 INF = float('inf')
@@ -991,14 +999,60 @@ def do_reach_large(ctx, bct, n, h, p, with_breadth=False):
         return True
 
     A0 = An.copy()
-    Rr, Dr = call(bct.reachdist, An.copy(), _t=60.0)
-    judge('reachdist[large-dense]', Rr, Dr, REACH_OVERFLOW_KEY)
-    Db = call(bct.distance_bin, An.copy(), _t=60.0)
-    judge('distance_bin[large-dense]', None, Db)
-    if with_breadth:
-        Rb, Dd = call(bct.breadthdist, An.copy(), _t=120.0)
-        judge('breadthdist[large-dense]', Rb, Dd)
+    with blas_threads(1):
+        Rr, Dr = call(bct.reachdist, An.copy(), _t=60.0)
+        judge('reachdist[large-dense]', Rr, Dr, REACH_OVERFLOW_KEY)
+        Db = call(bct.distance_bin, An.copy(), _t=60.0)
+        judge('distance_bin[large-dense]', None, Db)
+        if with_breadth:
+            Rb, Dd = call(bct.breadthdist, An.copy(), _t=120.0)
+            judge('breadthdist[large-dense]', Rb, Dd)
     ctx.check(np.array_equal(An, A0), 'distance:no-mutation', 'input modified', case)
+
+
+# ---------------------------------------------------------------- BLAS threads
+_BLAS = None
+
+
+def _blas():
+    """(set_num_threads, get_num_threads) of the OpenBLAS that numpy loaded, or (None, None)"""
+    global _BLAS
+    if _BLAS is None:
+        _BLAS = (None, None)
+        try:
+            import ctypes
+            libs = sorted({l.split()[-1] for l in open('/proc/self/maps') if 'openblas' in l.lower() and '.so' in l})
+            for p in libs:
+                lib = ctypes.CDLL(p)
+                for pre in ('scipy_openblas', 'openblas'):
+                    for suf in ('64_', ''):
+                        try:
+                            _BLAS = (getattr(lib, pre + '_set_num_threads' + suf), getattr(lib, pre + '_get_num_threads' + suf))
+                            return _BLAS
+                        except AttributeError:
+                            pass
+        except Exception:
+            pass
+    return _BLAS
+
+
+@contextlib.contextmanager
+def blas_threads(k=1):
+    """Hundreds of successive n x n products with n ~ 200 are 10-15 times slower (wall) and ~100 times dearer (CPU) on 16 spinning
+    BLAS threads than on one: the large-matrix blocks run their calls single-threaded.  Speed only; a no-op when the library
+    is not found."""
+    st, gt = _blas()
+    old = None
+    if st is not None:
+        try:
+            old = int(gt()); st(int(k))
+        except Exception:
+            old = None
+    try:
+        yield
+    finally:
+        if old is not None:
+            st(old)
 
 
 # ---------------------------------------------------------------- stress families: numeric range of the walk counts (oracle only)
@@ -1117,7 +1171,9 @@ def do_clique_chain(ctx, bct, r, k, c, extra, one_way, overflow64=False):
             ctx.fail(fn + ':raises', 'raised %s: %s' % (type(e).__name__, str(e)[:120]), case)
         return None
 
-    with np.errstate(all='ignore'):
+    # binary64 range: the subject is the numeric range, not the storage (a bool copy is multiplied logically and cannot overflow):
+    # the arrays go to the routines as built, so that the verdict does not depend on the draw of the representation layer
+    with np.errstate(all='ignore'), blas_threads(1), (no_variants() if overflow64 else contextlib.nullcontext()):
         Db = run_('distance_bin', bct.distance_bin)
         if Db is not None:
             judge_big(ctx, 'distance_bin', None, Db, dist, case,
@@ -1149,12 +1205,12 @@ def do_clique_chain(ctx, bct, r, k, c, extra, one_way, overflow64=False):
             ew = run_('efficiency_wei', bct.efficiency_wei)
             if ew is not None:
                 ctx.check(fclose(ew, eff), 'efficiency_wei:mean-inverse', 'returned %r, mean inverse BFS distance %r' % (float(ew), eff), case)
-            if Db is not None:
-                # charpath on the distance matrix just returned (default flags: diagonal excluded, infinite pairs included)
-                lam_, eff_ = call(bct.charpath, np.asarray(Db, dtype=float).copy(), _t=t_)[:2]
+            # charpath on the TRUE distance matrix (default flags: diagonal excluded, infinite pairs included)
+            cp = run_('charpath', lambda M: bct.charpath(dist.copy())[:2])
+            if cp is not None:
                 lam = float(np.mean(dist[off]))
-                ctx.check(fclose(eff_, eff) and (lam_ == lam if np.isinf(lam) else fclose(lam_, lam)), 'charpath:mean',
-                          'charpath(distance_bin(A)) = (%r, %r), mean / mean inverse of the BFS distances (%r, %r)' % (float(lam_), float(eff_), lam, eff), case)
+                ctx.check(fclose(cp[1], eff) and fclose(cp[0], lam), 'charpath:mean',
+                          'charpath(D) = (%r, %r), mean / mean inverse of the distances (%r, %r)' % (float(cp[0]), float(cp[1]), lam, eff), case)
     ctx.check(np.array_equal(An, A0), 'distance:no-mutation', 'input modified', case)
 
 
@@ -1180,7 +1236,7 @@ def stress_families(ctx, bct):
         do_clique_chain(ctx, bct, r, k, c, extra=0, one_way=True)
     do_clique_chain(ctx, bct, r, 50, 183, 2, False, overflow64=True)
     if ctx.thorough:
-        do_clique_chain(ctx, bct, r, 64, 172, 0, True, overflow64=True)
+        do_clique_chain(ctx, bct, r, 64, 185, 0, True, overflow64=True)
 
 
 # ---------------------------------------------------------------- correspondence
@@ -1273,8 +1329,10 @@ def run(ctx):
     import bct
     B_ = Batch()
     r = ctx.nprng
-    # 0. stress families (numeric range of the walk counts; oracle only) - first, so that an escalated pass reaches them
-    stress_families(ctx, bct)
+    # 0. stress families (numeric range of the walk counts; oracle only): FIRST in the escalated pass of a changed tree (its time cap
+    # must not cut them off), LAST otherwise (the first calls of every routine stay the small inputs of the main stream)
+    if ctx.escalated:
+        stress_families(ctx, bct)
     # oracle self-test against brute-force path enumeration
     for n in (2, 3, 4):
         for _ in range(ctx.scale(10, 60)):
@@ -1372,6 +1430,8 @@ def run(ctx):
     if ctx.thorough:
         do_reach_large(ctx, bct, 260, 130, 0.15)
         do_reach_large(ctx, bct, 200, int(r.randint(60, 140)), 0.5)
+    if not ctx.escalated:
+        stress_families(ctx, bct)
     compare_models(ctx, B_)
 
 
